@@ -1,3 +1,4 @@
+import Gtree.Lemmas.SourceRefines
 import Gtree.Props.C14
 import Gtree.Lemmas.Output
 import Gtree.Model.Wasm
@@ -110,4 +111,14 @@ theorem C17_same_bytes (f : Fmt) (dry : Bool) (exts : List Bytes) (inp : Input)
     | nil => simp
     | cons r rs ih => simp [C17_render_same, ih]
 
+end Gtree
+
+namespace Gtree
+/-- Tie to the source, re-checked on every run: both build variants compile markdown/parser.go; the parser of the two models is `Parser.Parse` as translated on this run. -/
+theorem C17_parser_is_the_source (st : PState) (row : Bytes) :
+    Src.Parser.Parse (toSrc st) row = (toSrc (parse st row).1, resSrc (parse st row).2) :=
+  Parse_src st row
+
+/-- the parser every generator starts with (`md.NewParser()` returns `&Parser{}`) is the model's initial state -/
+example : toSrc {} = { isSharpRoot := false, spaces := 0, sep := [] } := rfl
 end Gtree
